@@ -226,7 +226,7 @@ def run_unit(unit, repo, scratch, features=None, rlimit=30, multiple_errors=4, t
             if sp.get('is_primary') and sp.get('text'):
                 clause = ' '.join(t['text'][max(0, t.get('highlight_start', 1) - 1):max(0, t.get('highlight_end', len(t['text']) + 1) - 1)].strip()
                                   for t in sp['text'])
-        if kind in ('post', 'invariant') and re.search(r'\bsteps\b', clause):
+        if kind in ('post', 'invariant') and (re.search(r'\bp?steps\b', clause) or re.match(r'\s*(res is Ok ==> )?(ssize|ssize_seq|cost)\(', clause)):
             kind = 'cost'
         failures.append(dict(fn=fname, arm=arm, kind=kind, line=line, text=text, message=d.get('message'), clause=clause[:300],
                              rendered=d.get('rendered', '')[:1500]))
